@@ -140,6 +140,43 @@ CHECKS["C16"] = dict(
     technique="Lean 4 proof (case analysis on the state at the first delimiter + clean-stream lemma) + differential correspondence",
     design="5/C16")
 
+CHECKS["C07"] = dict(
+    text="Theorems (Props/C07.lean): aidon_roundtrip_body / aidon_roundtrip_frame - for EVERY list of well-formed Aidon elements (any OBIS "
+         "codes in any order; text, clock and register elements; registers of each transmitted integer type over their whole range, any "
+         "scaler -128..127, any unit) and any LLC/APDU header, decode_notification_body and decode_frame_content return exactly the "
+         "expected dictionary: common field name (or C.D.E), value = register x 10^scaler (the integer when scaler = 0 or register = 0, "
+         "otherwise the double nearest to the exact value), text verbatim, clock = transmitted date-time, manufacturer 'Aidon'; "
+         "scaled_int_iff. The model of the construct grammar is hand-written (Model/Cosem.lean, Model/Aidon.lean). Correspondence: list "
+         "descriptors -> Lean spec encoder -> real decoders, compared with the model decoder (tie, incl. exception classes) and the "
+         "specification's expected dictionary (exact float comparison); plus 40k mutated fixtures in C15.",
+    note=NOTE_COMMON + "Modelled, not verified: the construct combinators (Select/GreedyRange/Peek failure semantics), Decimal arithmetic, "
+         "float(Decimal) = correctly rounded (exact binary64 model).",
+    technique="Lean 4 proof (parser/encoder round trip by induction over the element list) + spec-encoder-driven differential correspondence",
+    design="5/C07")
+CHECKS["C10"] = dict(
+    text="Theorems (Props/C10.lean): datetime_exact - every valid COSEM date-time (all calendar dates 1..9999 with the leap rule, all "
+         "times, hundredths 0..99 or unspecified, deviation -720..720 or unspecified, every status octet and day of week) decodes to exactly "
+         "those civil fields, microseconds = hundredths x 10000 and UTC offset = -deviation (none when unspecified), consuming 13 octets; the "
+         "same in a generic field (Kaifa list element), a date-time field (Kamstrup element, tagged APDU) and the APDU header with null, "
+         "tagged or untagged date-time (apdu_clock). The list positions are additionally covered by the C07/C08/C09 round trips. A "
+         "machine-checked example shows 'hour not specified' is NOT decodable (TypeError) - the statement's hypothesis is needed. "
+         "Correspondence: boundary and seeded date-times in seven syntactic positions through the real decoders, expected instant computed "
+         "independently in Python.",
+    note=NOTE_COMMON + "Modelled: datetime.datetime/timezone argument checks.",
+    technique="Lean 4 proof (arithmetic on the 13 octets, calendar validity) + differential correspondence in every syntactic position",
+    design="5/C10")
+CHECKS["C18"] = dict(
+    text="Theorems (Props/C18.lean): backoff_value - for EVERY sequence of failure()/reset() calls and every max_delay the strategy reports "
+         "min(2^(n-1), max_delay) after n >= 1 failures since the last reset and 0 after a reset; reset_restarts; capped_and_monotone; "
+         "sleep_time_eq - _get_back_off_time = max(connect-error delay, breaker sleep if flagged); breaker_sets / breaker_clears - two "
+         "losses within the threshold make the next attempt wait at least the configured sleep, losses further apart add nothing. "
+         "Correspondence: real ExponentialBackOff on all sequences up to length 10 (14 thorough) x 5 max_delay values and random ones up to "
+         "200; real ConnectionManager breaker/_get_back_off_time with a patched clock. The placement of these sleeps on the event loop "
+         "(attempt starts no sooner than failure + delay) is exercised by the C17 virtual-time harness.",
+    note=NOTE_COMMON + "Partial: real wall-clock scheduling slack is outside the model; times are integer microseconds.",
+    technique="Lean 4 proof (induction over call sequences) + exhaustive small-domain correspondence",
+    design="5/C18")
+
 NOT_YET = {}
 
 
